@@ -57,19 +57,19 @@ PROPS = {
         partial=[]),
     "C02": rt(700, 12000, ["serve-with-params", "serve-user"],
         "add-only tables of 1-14 routes in random registration orders incl. >=5 literal siblings; probes as C01, ASCII; the table-only resolver `resolve` (Spec/Resolve.v) is evaluated on every probe",
-        props=["TreeMatch", "C02order", "C02dfs", "C03lit", "Consts"],
+        props=["TreeMatch", "C02order", "C02dfs", "C03lit", "C02resolve", "Consts", "PureFuns"],
         level_text="C02_shortest_capture: for every matcher function, suffix and path, a parameter takes the SHORTEST accepted value that is followed by its literal suffix (no widening) - all inputs. C02_order_reachable / C02_literal_children_first / C02_sort_node_sorted: in every reachable tree the children of every node are ordered literal < interceptor < regexp < named and every index entry points at a literal child, so depth-first search tries the kinds in the documented priority (proved preserved through registration incl. splits, removal, clean, use). C02_first_successful_child(_precise) / C02_404_iff_all_fail: the answer comes from the FIRST child in search order (indexed literal, then the non-indexed children in kind order) whose subtree matches, every earlier child having failed - falling back, never widening (C02_no_widening, C02_outcome_independent_of_params); C02_kind_priority_no_index, C02_literal_indexed_wins, C02_sort_node_idx_complete. The full refinement 'match on the tree built from a table = outcomes(table)' is stated as the executable resolver Spec/Resolve.v and decided on the implementation on every probe.",
         level_note="partial: kind-priority / first-byte-index / radix-split refinement to the table resolver (Repr invariant) is not proved; it is checked by evaluating the extracted resolver against implementation and model.",
         partial=["C02_priority (refinement tree -> outcomes) not proved"]),
     "C03": rt(350, 6000, ["remove", "clean"],
         "histories of 1-14 mutations (40% Remove/Clean, facades, >=5 literal siblings) with state dump, Routes() and one simple witness per pool pattern after every step",
-        props=["C03", "C03find", "C03lit", "C03frame", "C03gone", "C03witness"],
+        props=["C03", "C03find", "C03lit", "C03frame", "C03gone", "C03witness", "C03abs"],
         level_text="At tree level, every reachable tree: C03_find_sound / C03_find_complete (the lookup used by Remove, URL and the duplicate check finds a node spelling the pattern iff one exists), C03_add_registers (an accepted Handle leaves a node with that pattern carrying the methods, OPTIONS and the 405 handler), C03_remove_effect / C03_remove_others_kept (Remove changes exactly the one node it looked up; every other node keeps pattern, handlers and method set), C03_remove_all_clears_partial, C03_absent_not_found; C03_pattern_once_refuted: with literal text containing unbalanced braces two nodes can spell the same pattern (outside the well-formed quantifier). On the abstract route table (C03_remove_frame, C03_remove_all, C03_clean_exact, C03_handle_frame, C03_use_keeps_routes): removal touches exactly the named pattern, Clean(prefix) exactly the patterns with that prefix. Routes()/dispatch of the implementation are compared with this table after every step, with the documented resolver deciding the winner on simple witnesses, and earlier dispatches are re-checked after removals (frame).",
         level_note="partial: the refinement tree-state -> table (abs commutes with add/remove/clean) is checked by the dump correspondence and the oracles on every step, not proved.",
         partial=["C03_refinement (abs_tree (step t op) = table_step (abs_tree t) op) not proved"]),
     "C04": rt(350, 6000, ["serve-options", "serve-405"],
         "histories as C03 (40% removals, WithTrace 50%) with OPTIONS and an unused method on every pool pattern and OPTIONS * after every step",
-        props=["C04", "C04hist", "C04count", "Consts"],
+        props=["C04", "C04hist", "C04count", "Consts", "PureFuns"],
         level_text="C04_allow_exact_reachable: in EVERY reachable tree (any history of Handle/Remove/Clean/Use incl. rejected calls) the method set rendered for every route node is exactly its registered methods (+HEAD iff GET, OPTIONS always) plus TRACE iff configured - from the node invariant hs_ok proved preserved by tree_add/remove/clean/use (C04_hs_*) and the bit-set rendering lemma C04_bits_render (finite sweep over all key subsets); C08_head_iff_get_reachable. C04_spec_exact etc.: the specified Allow set on the abstract table. C04_counters_reachable / C04_options_star_exact: in every reachable state the tree-wide counters are exactly the per-method numbers of live routes, and OPTIONS * lists exactly OPTIONS, TRACE when configured and the methods registered on at least one live route (HEAD never).",
         level_note="proved at tree level for every history; that Routes()/Node().Methods() read the same bit-sets is the model's tree_routes/serve_obs, compared on every step.",
         partial=[]),
@@ -109,7 +109,7 @@ PROPS = {
         trust=["middleware factories are symbolic (HWrap terms); the harness's factories record their arguments"]),
     "C10": rt(500, 8000, ["url-ok", "url-err"],
         "well-formed and documented-malformed patterns x params maps (present/missing/extra keys, arbitrary bytes, prefix/suffix/infix matches) x strict/non-strict x live/non-live; through Router and facades",
-        props=["C10", "C03find", "C10tokens"],
+        props=["C10", "C03find", "C10tokens", "PureFuns"],
         level_text="C10_url_segs_closed_form (URL = segments with parameters substituted, fails iff one is missing), C10_roundtrip (building a matched route from its captured parameters reproduces the path), C10_strict_validates (every parameter kind validated over its whole length), C10_strict_not_a_route.",
         level_note="C10_nonstrict_is_instantiate_partial: for every pattern the independent tokenizer accepts (up to the 32767-byte segment limit, C10_*_refuted shows the limit matters) non-strict URL building IS 'replace every {..} token by params[name], keep literal text, fail iff a parameter is missing'; C10_tokens_split_agree_partial / C10_tokens_split_names / C10_tokens_split_kinds: the model's Split and the tokenizer agree on segments, names and kinds; C10_empty_name_rejected, C10_adjacent_rejected, C10_dupname_rejected: the documented syntax errors are rejected."),
     "C11": rt(250, 4000, ["creq"],
@@ -143,7 +143,7 @@ PROPS = {
         level_note="user functions are symbolic (raise tables); panic(nil) excluded; a panicking matcher or recovery function is outside the property."),
     "C17": rt(300, 1500, ["handle-rejected"],
         "tables x Handle calls with valid/duplicate/reserved/unknown methods in every position (45%), malformed patterns (25%), patterns equal up to names; dump + Routes + witnesses + Allow + OPTIONS * before and after every call",
-        props=["C17", "C03find", "C17amb"],
+        props=["C17", "C03find", "C17amb", "PureFuns"],
         level_text="C17_check_methods_ok_iff (a method list is accepted iff all methods are known, not reserved, not registered and not repeated), C17_duplicate_rejected_tree (on every tree: the same pattern+method again is rejected with an error value, never a fault), C17_rejected_add_is_noop (a rejected call returns no new state), C17_tree_add_ambiguous_iff / C17_check_amb_sound / C17_ambiguous_names_live_route_reachable (an 'ambiguous' rejection always names a live route whose text differs from the new pattern only at labels that are twins differing in name or '-' flag), C17_not_ambiguous_when_flag_false, C17_single_chain + C17_twin_of_only_route_rejected_canon (a pattern identical up to parameter names / '-' flags to the ONLY route is always rejected, for canonically spelled patterns).",
         level_note="C17_twin_of_only_route_rejected_refuted: '/{id:}/{a}' then '/{id}/{b}' is accepted - the empty-rule spelling {id:} is a different text with the same parse, so the walk neither takes the identical-text branch nor the ambiguous branch; such pairs are not 'identical up to parameter names' textually and are excluded from the oracle's must-reject clause. 'Nothing observable changes' is decided by comparing every observation before/after rejected calls on the implementation (the functional model has no partial mutation: this is how F26 was found).",
         partial=["text-level pat_twin from the ambiguity walk on general trees (exported as amb_walk / twin_text)"]),
